@@ -44,6 +44,13 @@ Lemma go_unquote_render : forall q v rest, qok q -> valid_utf8 v = true ->
   unquote_prefix (render_q q v ++ rest) = ROk (Some (v, rest)).
 Proof. intros. apply unquote_render; assumption. Qed.
 
+(* the back-quoted style on ANY byte string without a back quote *)
+Lemma go_next_render_raw : forall v rest sp f, contains_byte 96 v = false ->
+  next go_is_space go_is_letter go_is_digit (S f) (render_raw v ++ rest) sp = ROk (mkTok v true true sp, rest).
+Proof.
+  intros. apply (next_render_raw go_is_space go_is_letter go_is_digit); try assumption; vm_compute; reflexivity.
+Qed.
+
 (* ParseSeqQL on the text `name:<quoted v>`: the literals the term-level model makes of v itself *)
 Lemma go_seqql_plain_text : forall ftype sens q n v t lits,
   qok q -> name_ok n = true -> valid_utf8 v = true -> ftype n = t -> searchable t = true ->
